@@ -548,7 +548,7 @@ func (run *c08Run) hasSig(res *c08Result, sig string, verdict bool) bool {
 
 // shrink minimises the document (token spans) and then the schema (definitions, lines).
 func (run *c08Run) shrink(sig string, f *c08Found) {
-	budget := 40
+	budget := 120
 	toks := c08Tokens(f.doc)
 	if chk := run.c.c08Judge([][2]string{{f.schema, c08Join(toks)}}); !run.hasSig(chk[0], sig, f.verdict) {
 		toks = nil // the re-tokenised text does not reproduce (should not happen): keep the original
@@ -844,7 +844,7 @@ var c08SeedDocs = []string{
 	`{ f(x: 1099511627776) }`, `{ f(x: 2147483648) }`, `{ f(x: -2147483649) }`, `{ f(x: 2147483647) g: f(x: -2147483648) }`, // R8c
 	`{ f(fl: 99999999999999999999) }`, `{ f(id: 99999999999999999999) }`, `{ f(fl: 1e999) }`, // R8d (1e999 is not finite: invalid on both sides)
 	`query($v: Int) { f(r: $v) }`, `query($v: Int) { f(i: {r: $v}) }`, `query($v: Int = 1) { f(r: $v) }`, // R8e
-	`query($v: Int) { f ...F } fragment F on Q @fd(x: $v) { f }`, `query { f ...F } fragment F on Q @fd(x: $u) { f }`, `query($v: Int) { f(x: $v) ...F } fragment F on Q @fd(x: $v) { f }`, // N1
+	`query($v: Int) { f ...F } fragment F on Q @fd(x: $v) { f }`, `query { f ...F } fragment F on Q @fd(x: $u) { f }`, `query($v: Int) { a: f(x: $v) ...F } fragment F on Q @fd(x: $v) { f }`, // N1
 	`{ f(i: {a: 1e999}) }`, `{ f(i: {a: 99999999999999999999}) }`, `{ f(i: {a: [1e999]}) }`, // N2
 	`subscription { a ... on Node { ... on Other { o } } }`, `subscription { a ...F } fragment F on Node { ... on Other { o } }`, // root field under a type condition that cannot apply
 	`{ lu { ... on LA { data } ... on LB { data } } }`, `{ lu { ... on LA { m } ... on LB { m } } }`, // list nullability in SameResponseShape
